@@ -612,7 +612,7 @@ func (g *Gen) checkPost(res []string, pos token.Pos) {
 	}
 	k := 0
 	for _, cl := range g.fc.Clauses {
-		if cl.Kind != "ensures" {
+		if cl.Kind != "ensures" && cl.Kind != "objinvariant" {
 			continue
 		}
 		k++
